@@ -69,8 +69,8 @@ impl Property for C20 {
         let per = match (tier, suite.slow()) {
             (Tier::Quick, false) => 150,
             (Tier::Quick, true) => 30,
-            (Tier::Thorough, false) => 500,
-            (Tier::Thorough, true) => 100,
+            (Tier::Thorough, false) => 20000,
+            (Tier::Thorough, true) => 2500,
         };
         vec![(0, per), (1, per)]
     }
